@@ -79,6 +79,7 @@ type XOpts struct {
 	Arrays             bool
 	UserPtrs           bool
 	Unexported         bool // unexported fields (raw types only make sense with them)
+	ForcePrefixPair    bool // the first top-level field is an embedded struct whose first two fields are (pointer-to-)struct fields named N and N+"Replica"
 	OddNames           bool // some field names start with a non-ASCII upper-case letter
 	OddTagValues       bool // tag values with quotes, backslashes, blanks, colons, backticks, non-ASCII
 	ForceElemEmbed     bool // the first top-level field is a slice/array of structs whose element embeds a pointer to a struct
@@ -95,6 +96,7 @@ type XGen struct {
 	O       XOpts
 	next    int
 	pending string
+	un      int
 	pool    []string
 	// Aliased lists the names of fields that received alias tags.
 	Aliased []string
@@ -295,13 +297,37 @@ func (g *XGen) Struct(depth int) reflect.Type {
 		var sf reflect.StructField
 		x := r.Intn(100)
 		structy := false
+		if o.ForcePrefixPair && depth == 0 && i == 0 && depth+1 < o.MaxDepth {
+			// adjacent nested-struct fields whose names are prefixes of one another
+			// (DB / DBReplica), of the same kind, inside an embedded struct
+			ptr := r.Chance(1, 2)
+			mk := func(n string) reflect.StructField {
+				t := g.Struct(depth + 2)
+				if ptr {
+					t = reflect.PtrTo(t)
+				}
+				return reflect.StructField{Name: n, Type: t, Tag: g.tags(n, true)}
+			}
+			inner := []reflect.StructField{mk(name), mk(name + "Replica")}
+			rest := g.Struct(depth + 1)
+			for j := 0; j < rest.NumField(); j++ {
+				inner = append(inner, rest.Field(j))
+			}
+			et := reflect.StructOf(inner)
+			if r.Chance(1, 2) {
+				et = reflect.PtrTo(et)
+			}
+			fields = append(fields, reflect.StructField{Name: g.name(), Type: et, Anonymous: true})
+			continue
+		}
 		forced := o.ForceElemEmbed && depth == 0 && i == 0 && depth < o.MaxDepth
 		if forced {
 			x = 45
 		}
 		switch {
 		case o.Unexported && x < 6:
-			sf = reflect.StructField{Name: "u" + strings.ToLower(name), PkgPath: "verifharness/gen", Type: g.leaf()}
+			g.un++ // (names that differ only in case would collide after lowering)
+			sf = reflect.StructField{Name: fmt.Sprintf("u%s%d", strings.ToLower(name), g.un), PkgPath: "verifharness/gen", Type: g.leaf()}
 			fields = append(fields, sf)
 			continue
 		case depth < o.MaxDepth && x < 22:
